@@ -360,6 +360,7 @@ class TAPParser:
     num_tests = 0
     last_test = 0
     highest_test = 0
+    seen_tests: T.Optional[T.Set[int]] = None
     yaml_lineno: T.Optional[int] = None
     yaml_indent = ''
     state = _MAIN
@@ -433,6 +434,9 @@ class TAPParser:
                 self.num_tests += 1
                 self.last_test = self.last_test + 1 if m.group(2) is None else int(m.group(2))
                 self.highest_test = max(self.highest_test, self.last_test)
+                if self.seen_tests is None:
+                    self.seen_tests = set()
+                self.seen_tests.add(self.last_test)
                 if self.plan and self.last_test > self.plan.num_tests:
                     yield self.Error('test number exceeds maximum specified in test plan')
                 yield from self.parse_test(m.group(1) == 'ok', self.last_test,
@@ -495,8 +499,9 @@ class TAPParser:
                     yield self.Error(f'Too many tests run (expected {self.plan.num_tests}, got {self.num_tests})')
                 return
 
-            if self.highest_test != self.num_tests:
-                if self.highest_test < self.num_tests:
+            seen = self.seen_tests or set()
+            if seen != set(range(1, self.num_tests + 1)):
+                if len(seen) < self.num_tests:
                     yield self.Error(f'Duplicate test numbers (expected {self.num_tests}, got test numbered {self.highest_test}')
                 else:
                     yield self.Error(f'Missing test numbers (expected {self.num_tests}, got test numbered {self.highest_test}')
